@@ -125,6 +125,13 @@ INFO = {
  'C10-m7': ("ExclusiveRateLimit creates its padding timer once per option value and Resets it per execution", 'one ExclusiveRateLimit option value shared by two keys with overlapping rate-limited tails: one tail never gets its tick, the key stays running and later calls on it are never answered'),
  'C10-m8': ("the resolve-not-called fallback is skipped when the runner belongs to a Start-style call", 'a Start/StartAfter first on the item, a blocking or async call coalesced into the same batch, and a work function that returns without resolving: the coalesced call hangs'),
  'C12-m7': ("Buffer.Slice takes the read lock twice (calls Size() while holding RLock)", 'Slice concurrent with anything that takes the write lock (Put, Close, Commit, the cleaner timer) landing between the two RLocks: permanent deadlock of the buffer mutex'),
+ 'C01-m7': ("Buffer.Put re-checks the caller's context after it has appended and returns its error", 'the Put\'s own context cancelled while the call is queued behind the buffer lock: the Put reports an error but its values are in every consumer\'s stream'),
+ 'C02-m7': ("Buffer.Range's end-of-buffer check assumes exactly one read is in flight", 'reads left uncommitted before Buffer.Range is called (or made by the callback): the remaining count is over-reported and Range blocks at the end of the buffer instead of stopping'),
+ 'C06-m7': ("the nil-yield path of the SubscribeContext iterator unsubscribes unconditionally", 'the iterator called with a nil yield (documented panic, recovered) after its context was cancelled or after another call of it finished: the count drops one too low, later Sends miss a standing subscriber'),
+ 'C11-m7': ("the sync.Once guarding the resolve callback replaced by an unlocked check of item.complete", 'a work function that lets two goroutines call resolve at about the same time (or a late helper racing the runner\'s fallback resolve): unsynchronised read, double send/close'),
+ 'C11-m8': ("Buffer.Diff takes the consumer mutex with TryLock and reads the offset unlocked when that fails", 'Diff(c) called from a goroutine other than the one driving c while that one is in Get/Commit/Rollback'),
+ 'C13-m7': ("the replay branch of Channel.Get extracted into a helper that uses nil as its nothing-to-replay sentinel", 'an interface-typed source carrying a nil value, a Rollback covering it and a re-read reaching it: the nil is skipped, a fresh value is returned ahead of (and then instead of) the replays'),
+ 'C17-m7': ("registration hoisted above the start block and the nil-function check moved into the start helper", 'Do(nil) on an idle Worker recovered by its caller, then ordinary use: a phantom holder keeps the next instance from ever being stopped'),
 
 }
 
